@@ -148,6 +148,30 @@ class BlockSlice:
     def deref_cell(self, eng):
         return Cell(self)      # [T] is unsized: only ever seen behind the reference
 
+    def index_with(self, eng, i, ctx):
+        """slice[i] / slice[a..b] with Rust's bounds checks"""
+        sz = eng.size_of(self.ptr.ty)
+        if isinstance(i, z3.BitVecRef):
+            return Ref(self.index_cell(eng, i, ('index',)))
+        if isinstance(i, Struct):
+            h = ty_head(i.ty)
+            if h == 'Range':
+                lo, hi = i.f[0].get(eng), i.f[1].get(eng)
+            elif h == 'RangeFrom':
+                lo, hi = i.f[0].get(eng), self.len
+            elif h == 'RangeTo':
+                lo, hi = bv(0, 64), i.f[0].get(eng)
+            elif h == 'RangeFull':
+                lo, hi = bv(0, 64), self.len
+            else:
+                raise Unsupported('slice index by ' + h)
+            if not eng.fork_bool(z3.ULE(lo, hi)):
+                raise PathEnd('panic', ('slice index starts after its end', str(lo), str(hi)))
+            if not eng.fork_bool(z3.ULE(hi, self.len)):
+                raise PathEnd('panic', ('range end index out of range for slice', str(hi), str(self.len)))
+            return BlockSlice(BlockPtr(self.ptr.blk, z3.simplify(self.ptr.off + lo * sz), self.ptr.ty), z3.simplify(hi - lo))
+        raise Unsupported('slice index by ' + type(i).__name__)
+
     def index_cell(self, eng, idx, p):
         if p[0] == 'cindex':
             idx = (self.len - p[1]) if p[3] else bv(p[1], 64)
